@@ -38,6 +38,9 @@ def make_pool(rng, kbpk):
                          ("F", 5, "S"), ("F", 1, "K"), ("F", 2, "__")]
     pool["wrap"] = [("W", rng.randbytes(16), None), ("W", rng.randbytes(5), 30), ("W", b"", None), ("W", rng.randbytes(24), -1)]
     pool["str"] = [("S",)]
+    # headers sharing optional-block ids in different orders (order must follow the LAST load only)
+    pool["load_overlap"] = [("L", "B0000P0TE00N0200KS04KC04"), ("L", "B0000P0TE00N0200TS04KS05x"), ("L", "D0000P0TE00N0300KC05yTS04KS04"),
+                            ("L", "A0000P0TE00N0100TS06zz")]
     pool["set_kbpk"] = [("K", kbpk), ("K", rng.randbytes(len(kbpk))), ("K", kbpk)]
     return pool
 
